@@ -2201,7 +2201,9 @@ XPathProcessorImpl::LocationPath()
 
     m_expression->appendOpCode(XPathExpression::eOP_LOCATIONPATH);
 
-    if(tokenIs(XalanUnicode::charSolidus) == true)
+    const bool  isAbsolute = tokenIs(XalanUnicode::charSolidus);
+
+    if(isAbsolute == true)
     {
         nextToken();
 
@@ -2220,7 +2222,22 @@ XPathProcessorImpl::LocationPath()
         m_expression->updateOpCodeLength(newOpPos);
     }
 
-    if(m_token.empty() == false)
+    // "/" on its own is a complete location path: it may be followed by
+    // '|', ')', ']', ',' or an operator.
+    const bool  isRootOnly =
+        isAbsolute == true &&
+        (tokenIs(XalanUnicode::charVerticalLine) == true ||
+         tokenIs(XalanUnicode::charRightParenthesis) == true ||
+         tokenIs(XalanUnicode::charRightSquareBracket) == true ||
+         tokenIs(XalanUnicode::charComma) == true ||
+         tokenIs(XalanUnicode::charEqualsSign) == true ||
+         tokenIs(XalanUnicode::charExclamationMark) == true ||
+         tokenIs(XalanUnicode::charLessThanSign) == true ||
+         tokenIs(XalanUnicode::charGreaterThanSign) == true ||
+         tokenIs(XalanUnicode::charPlusSign) == true ||
+         tokenIs(XalanUnicode::charHyphenMinus) == true);
+
+    if(m_token.empty() == false && isRootOnly == false)
     {
         RelativeLocationPath();
     }
